@@ -135,7 +135,10 @@ class World:
                        tuple(sorted(t.system_attrs.get("fixed_params", {}).items()))) for t in fr)
         calc = tuple((n, state_digest(c)) for n, c in sorted(self.calcs.items()))
         prev = tuple(sorted((n, repr(sorted(v.items(), key=lambda kv: kv[0]))) for n, v in self.prev.items()))
-        return repr((study, calc, prev))
+        # hidden per-handle state (thread-local trial caches) is part of the state too: merging two
+        # histories that differ only there would be unsound for any code that reads those caches
+        caches = tuple(state_digest(getattr(h._thread_local, "cached_all_trials", None)) for h in (self.study, self.reader))
+        return repr((study, calc, prev, caches))
 
 
 def build(hist: list, part: Part | None) -> World:
